@@ -678,3 +678,60 @@ Proof.
   rewrite IH by (intros q' Hq; apply H; right; assumption).
   cbn [app]. f_equal. rewrite <- app_assoc. reflexivity.
 Qed.
+
+(* ---- `.run "NAME"` / `.run 'NAME'`: blanks inside quotes belong to the name (fix-G) ---- *)
+Definition quotable (q : Z) (name : str) : Prop :=
+  forall c, In c name -> c <> q /\ (q = 34 -> c <> 92).
+
+Lemma shlex_in_quotes : forall name q tok b acc, quotable q name ->
+  shlex_go (name ++ [q]) (SQ q) tok b acc = ShOk (rev (rev (rev name ++ tok) :: acc)).
+Proof.
+  induction name as [|c name IH]; intros q tok b acc H.
+  - cbn [app shlex_go rev]. rewrite Z.eqb_refl. destruct tok; reflexivity.
+  - destruct (H c (or_introl eq_refl)) as [Hq Hb].
+    cbn [app shlex_go]. rewrite (proj2 (Z.eqb_neq c q) Hq).
+    assert ((c =? 92) && (q =? 34) = false) as ->.
+    { destruct (q =? 34) eqn:E; [|apply andb_false_r]. apply Z.eqb_eq in E.
+      rewrite (proj2 (Z.eqb_neq c 92) (Hb E)). reflexivity. }
+    rewrite IH by (intros d Hd; apply H; right; assumption).
+    cbn [rev]. rewrite <- app_assoc. reflexivity.
+Qed.
+
+Lemma shlex_quoted : forall q name, sh_quote q = true -> quotable q name ->
+  shlex_split (q :: name ++ [q]) = ShOk [name].
+Proof.
+  intros q name Hq H. unfold shlex_split. cbn [shlex_go].
+  assert (sh_ws q = false) as ->.
+  { unfold sh_quote in Hq. apply orb_true_iff in Hq. destruct Hq as [E|E]; apply Z.eqb_eq in E; subst; reflexivity. }
+  assert ((q =? 92) = false) as ->.
+  { unfold sh_quote in Hq. apply orb_true_iff in Hq. destruct Hq as [E|E]; apply Z.eqb_eq in E; subst; reflexivity. }
+  rewrite Hq. rewrite shlex_in_quotes by assumption.
+  cbn [rev app]. rewrite app_nil_r, rev_involutive. reflexivity.
+Qed.
+
+Theorem run_quoted_name : forall (W : World) st q name, sh_quote q = true -> quotable q name ->
+  do_run W st (q :: name ++ [q]) =
+  match find_query W name with
+  | Some d => execute W st (q_text d) (Some (q_date d))
+  | None => [error W (s2z "query """ ++ name ++ s2z """ not found")]
+  end.
+Proof.
+  intros W st q name Hq H.
+  assert (run_strip q = false) as Hs.
+  { unfold sh_quote in Hq. apply orb_true_iff in Hq. destruct Hq as [E|E]; apply Z.eqb_eq in E; subst; reflexivity. }
+  assert (q <> 42) as H42.
+  { unfold sh_quote in Hq. apply orb_true_iff in Hq. destruct Hq as [E|E]; apply Z.eqb_eq in E; subst; discriminate. }
+  assert (rstrip_by run_strip (q :: name ++ [q]) = q :: name ++ [q]) as Hr.
+  { change (q :: name ++ [q]) with ((q :: name) ++ [q]). apply rstrip_noop. exact Hs. }
+  assert (q :: name ++ [q] <> [42]) as Hstar by (intro E; inversion E; congruence).
+  destruct (find_query W name) as [d|] eqn:Hf.
+  - apply (run_named W st _ name d); auto. discriminate. apply shlex_quoted; assumption.
+  - apply (run_not_found W st _ name); auto. discriminate. apply shlex_quoted; assumption.
+Qed.
+
+(* the format in effect on the command line is the -f option, whatever the -o file is called *)
+Theorem cli_output_name_irrelevant : forall (W : World) c o,
+  let c' := {| c_format := c_format c; c_numberify := c_numberify c; c_output := o; c_quiet := c_quiet c;
+               c_query := c_query c; c_stdin := c_stdin c |} in
+  cli_state c' = cli_state c /\ snd (cli_run W c') = snd (cli_run W c) /\ fst (fst (cli_run W c')) = fst (fst (cli_run W c)).
+Proof. intros. repeat split; reflexivity. Qed.
